@@ -1406,15 +1406,18 @@ func boundedRead(c *core.Ctx) {
 	} else {
 		var sizeObj types.Object
 		ast.Inspect(fd.Body, func(x ast.Node) bool {
-			if as, ok := x.(*ast.AssignStmt); ok && len(as.Lhs) == 1 && len(as.Rhs) == 1 {
-				found := false
-				for _, call := range astx.Calls(as.Rhs[0]) {
-					if f := astx.CalleeFunc(info, call); f != nil && f.Name() == "Uint32" {
-						found = true
+			if as, ok := x.(*ast.AssignStmt); ok && len(as.Lhs) == len(as.Rhs) {
+				// (also as one position of a parallel assignment)
+				for i, r := range as.Rhs {
+					found := false
+					for _, call := range astx.Calls(r) {
+						if f := astx.CalleeFunc(info, call); f != nil && f.Name() == "Uint32" {
+							found = true
+						}
 					}
-				}
-				if found {
-					sizeObj = astx.ObjOf(info, as.Lhs[0])
+					if found {
+						sizeObj = astx.ObjOf(info, as.Lhs[i])
+					}
 				}
 			}
 			return true
@@ -1479,7 +1482,15 @@ func boundedRead(c *core.Ctx) {
 				// only consider exits after the size was decoded
 				if !s.AnyStep(func(n ast.Node) bool {
 					as, ok := n.(*ast.AssignStmt)
-					return ok && len(as.Lhs) == 1 && astx.ObjOf(info, as.Lhs[0]) == sizeObj
+					if !ok {
+						return false
+					}
+					for _, l := range as.Lhs {
+						if astx.ObjOf(info, l) == sizeObj {
+							return true
+						}
+					}
+					return false
 				}) {
 					return
 				}
